@@ -102,4 +102,61 @@ theorem ofNat32_sub_one (a : Nat) (h1 : 1 ≤ a) (ha : a < 2^15) : BitVec.ofNat 
   simp [BitVec.toNat_sub, BitVec.toNat_ofNat, Nat.mod_eq_of_lt ha']
   omega
 
+/-! the macros on an arbitrary word: SET then COUNT gives the value back, the other field is untouched -/
+
+theorem ofNat_bits_hi (n : Nat) (hn : n < 2^15) (i : Nat) (hi : 15 ≤ i) : (BitVec.ofNat 32 n).getLsbD i = false := by
+  simp [BitVec.getLsbD_ofNat, testBit_hi n hn i hi]
+
+theorem ofNat_bits_hi' (n : Nat) (hn : n < 2^15) (i : Nat) (hi : 15 ≤ i) (h32 : i < 32) : (BitVec.ofNat 32 n)[i] = false := by
+  have := ofNat_bits_hi n hn i hi
+  rwa [BitVec.getLsbD_eq_getElem h32] at this
+
+theorem READER_COUNT_SET_READERS (x : Word) (r : Nat) (hr : r < 2^15) : READER_COUNT (SET_READERS x (BitVec.ofNat 32 r)) = BitVec.ofNat 32 r := by
+  apply BitVec.eq_of_getLsbD_eq
+  intro i hi
+  simp only [READER_COUNT, SET_READERS, readerCountMask, setReadersMask, BitVec.getLsbD_and, BitVec.getLsbD_or, BitVec.getLsbD_not,
+    BitVec.getLsbD_ofNat (x := 0x00007FFF), maskR_bits i hi]
+  by_cases h : i < 15
+  · simp [h, hi]
+  · simp [h, hi, ofNat_bits_hi' r hr i (by omega) hi]
+
+theorem WRITER_COUNT_SET_READERS (x : Word) (r : Nat) (hr : r < 2^15) : WRITER_COUNT (SET_READERS x (BitVec.ofNat 32 r)) = WRITER_COUNT x := by
+  apply BitVec.eq_of_getLsbD_eq
+  intro i hi
+  simp only [WRITER_COUNT, SET_READERS, writerCountMask, writerCountShift, setReadersMask, BitVec.getLsbD_ushiftRight, BitVec.getLsbD_and, BitVec.getLsbD_or, BitVec.getLsbD_not,
+    BitVec.getLsbD_ofNat (x := 0x00007FFF), BitVec.getLsbD_ofNat (x := 0x3FFF8000)]
+  by_cases h : 15 + i < 32
+  · rw [maskR_bits _ h, maskW_bits _ h]
+    have : ¬ (15 + i < 15) := by omega
+    simp [h, this, ofNat_bits_hi' r hr (15+i) (by omega) h]
+  · have : (BitVec.ofNat 32 r).getLsbD (15+i) = false := ofNat_bits_hi r hr _ (by omega)
+    simp [h, this]
+
+theorem WRITER_COUNT_SET_WRITERS (x : Word) (w : Nat) (hw : w < 2^15) : WRITER_COUNT (SET_WRITERS x (BitVec.ofNat 32 w)) = BitVec.ofNat 32 w := by
+  apply BitVec.eq_of_getLsbD_eq
+  intro i hi
+  simp only [WRITER_COUNT, SET_WRITERS, writerCountMask, writerCountShift, setWritersMask, setWritersShift, BitVec.getLsbD_ushiftRight, BitVec.getLsbD_shiftLeft, BitVec.getLsbD_and, BitVec.getLsbD_or, BitVec.getLsbD_not,
+    BitVec.getLsbD_ofNat (x := 0x3FFF8000)]
+  by_cases h : 15 + i < 32
+  · rw [maskW_bits _ h]
+    by_cases h2 : i < 15
+    · have e : 15 + i - 15 = i := by omega
+      have : ¬ (15 + i < 15) := by omega
+      have h30 : 15 + i < 30 := by omega
+      simp [h, e, this, h30]
+    · simp [h, ofNat_bits_hi w hw i (by omega)]
+  · have : (BitVec.ofNat 32 w).getLsbD i = false := ofNat_bits_hi w hw _ (by omega)
+    simp [h, this]
+
+theorem READER_COUNT_SET_WRITERS (x : Word) (w : Word) : READER_COUNT (SET_WRITERS x w) = READER_COUNT x := by
+  apply BitVec.eq_of_getLsbD_eq
+  intro i hi
+  simp only [READER_COUNT, SET_WRITERS, readerCountMask, setWritersMask, setWritersShift, BitVec.getLsbD_shiftLeft, BitVec.getLsbD_and, BitVec.getLsbD_or, BitVec.getLsbD_not,
+    BitVec.getLsbD_ofNat (x := 0x00007FFF), BitVec.getLsbD_ofNat (x := 0x3FFF8000), maskR_bits i hi, maskW_bits i hi]
+  by_cases h : i < 15
+  · have : ¬ (15 ≤ i) := by omega
+    simp [h, hi, this]
+  · simp [h, hi]
+
+
 end PV.RWLock
